@@ -349,6 +349,12 @@ class Analysis:
                 return {"l": p["l"], "p": list(place_proj(p)) + [["*"]]}
             l = p["l"]
             named = (1 <= l <= b.nargs) or b.local_name(l)
+            if named and not (1 <= l <= b.nargs) and self._ndefs.get(l, 0) == 1:
+                # `let bytes = s.as_bytes();`: a view of s with the same length, alive only while s is borrowed
+                rv0 = b.def_rvalue(l)
+                if rv0 is not None and rv0["k"] == "call" and (b.callee_q(rv0["t"]) or "").rsplit("::", 1)[-1] in DEREF_FNS and rv0["t"]["args"]:
+                    cur = rv0["t"]["args"][0]
+                    continue
             if not named and self._ndefs.get(l, 0) == 1:
                 rv = b.def_rvalue(l)
                 if rv is not None:
@@ -385,9 +391,17 @@ class Analysis:
             return None
         return self.len_term_of_place(c)
 
-    def len_term_of_place(self, c):
+    def len_term_of_place(self, c, depth=0):
         # a `Vec` reached through auto-deref: (*(&v)) etc. are already folded by _resolve
         rp = self._resolve(c)
+        pj = place_proj(rp)
+        # `*bytes` where `let bytes = s.as_bytes()` / `&*v`: same length as the viewed container
+        if depth < 4 and len(pj) == 1 and pj[0][0] == "*" and not (1 <= rp["l"] <= self.b.nargs) and self._ndefs.get(rp["l"], 0) == 1:
+            rv0 = self.b.def_rvalue(rp["l"])
+            if rv0 is not None and rv0["k"] == "call" and (self.b.callee_q(rv0["t"]) or "").rsplit("::", 1)[-1] in DEREF_FNS and rv0["t"]["args"]:
+                c2 = self.container_of(rv0["t"]["args"][0])
+                if c2 is not None:
+                    return self.len_term_of_place(c2, depth + 1)
         # strip a trailing deref of a by-value String/Vec deref chain: `*(&v)` == v
         if rp["l"] in self.untracked:
             return None
